@@ -8,7 +8,7 @@ ROOT = os.path.realpath(os.path.join(os.path.dirname(__file__), ".."))
 
 
 def main():
-    names = sys.argv[1:] or sorted(d for d in os.listdir(os.path.join(ROOT, "seeded")) if re.match(r"C\d\d-[AB]$", d))
+    names = sys.argv[1:] or sorted(d for d in os.listdir(os.path.join(ROOT, "seeded")) if re.match(r"C\d\d-[A-Z]$", d))
     results = {}
     rp = os.path.join(ROOT, "seeded", "RESULTS.json")
     if os.path.exists(rp):
